@@ -1121,3 +1121,539 @@ Lemma key_eq_implies_eq_refuted_frame :
   exists v w k k', supported v = true /\ supported w = true /\ py_same v w = false
                    /\ to_hashable true v = Ok k /\ to_hashable true w = Ok k' /\ py_eq k k' = true.
 Proof. exists w_frame1, w_frame2. do 2 eexists. repeat split; vm_compute; reflexivity. Qed.
+
+(* ================= injectivity: equal keys only for equal values of the same type ================= *)
+Definition tname (v : pyval) : str :=
+  match v with
+  | PA (AOpaque c _ _) => c
+  | PA _ => []
+  | PSeq sk _ => tp_seq sk
+  | PSetv sk _ => tp_set sk
+  | PMap mk _ => tp_map mk
+  | PSeries _ _ _ _ => s "Series"
+  | PFrame _ _ => s "DataFrame"
+  end.
+
+(* what the third component of the key of an unhashable value is *)
+Definition payload_of (fp : bool) (v p : pyval) : Prop :=
+  match v with
+  | PA (AOpaque c i _) => p = PA (ADigest c i)
+  | PA _ => False
+  | PSeq sk l =>
+      let ce := hashable_iterable false (map (fun x => (x, to_hashable fp x)) l) in
+      match sk with
+      | KTuple | KList => ce = Ok p
+      | KDeque ml => exists d, ce = Ok d /\ p = PTuple [maxlen_val ml; d]
+      | KBytearray => p = PTuple l
+      | KArray c => p = PTuple [PStr c; PTuple l]
+      | KNd _ d sh => exists items, (if str_eqb d dt_obj then ce else Ok (PTuple l)) = Ok items
+                                    /\ p = PTuple [PTuple (map (fun z => PInt z) sh); PStr d; items]
+      end
+  | PSetv sk l => hashable_iterable true (map (fun x => (x, to_hashable fp x)) l) = Ok p
+  | PMap mk kvs =>
+      match mk with
+      | KDict => hashable_mapping true (mk_items fp kvs) = Ok p
+      | KODict => hashable_mapping false (mk_items fp kvs) = Ok p
+      | KDefault f => exists d, hashable_mapping true (mk_items fp kvs) = Ok d /\ p = PTuple [factory_val f; d]
+      | KCounter => exists its, py_sort item_lt (mk_items fp kvs) = Ok its
+                                /\ p = PTuple (map (fun it : item => pair_t (fst (fst it)) (snd (fst it))) its)
+      end
+  | _ => True
+  end.
+
+Lemma th_unhashable : forall fp v k, no_pandas v = true -> py_hashable v = false -> to_hashable fp v = Ok k ->
+  exists p, k = conv (tname v) p /\ payload_of fp v p.
+Proof.
+  intros fp v k Hnp Hh Hk. destruct v as [a|sk l|sk l|mk kvs| |].
+  - rewrite th_atom_eq in Hk. unfold th_atom in Hk. simpl in Hh. rewrite Hh in Hk.
+    destruct a; try discriminate. destruct fp, picklable; try discriminate. inversion Hk; subst. simpl. eauto.
+  - rewrite th_seq in Hk by exact Hh. unfold seq_body in Hk. simpl. destruct sk.
+    + case_iter Hk d Hd. cbn [bind] in Hk. inversion Hk; subst. eauto.
+    + case_iter Hk d Hd. cbn [bind] in Hk. inversion Hk; subst. eauto.
+    + case_iter Hk d Hd. cbn [bind] in Hk. inversion Hk; subst. eauto.
+    + inversion Hk; subst. eauto.
+    + inversion Hk; subst. eauto.
+    + match type of Hk with context [bind ?e _] => destruct e as [items|?] eqn:Hi; [|discriminate] end.
+      cbn [bind] in Hk. inversion Hk; subst. eauto.
+  - rewrite th_set in Hk by exact Hh. unfold set_body in Hk. case_iter Hk d Hd. cbn [bind] in Hk.
+    inversion Hk; subst. simpl. eauto.
+  - rewrite th_map in Hk. unfold map_body in Hk. simpl. destruct mk.
+    + destruct (hashable_mapping true _) as [d|?] eqn:Hd; [|discriminate]. cbn [bind] in Hk. inversion Hk; subst. eauto.
+    + destruct (hashable_mapping false _) as [d|?] eqn:Hd; [|discriminate]. cbn [bind] in Hk. inversion Hk; subst. eauto.
+    + destruct (hashable_mapping true _) as [d|?] eqn:Hd; [|discriminate]. cbn [bind] in Hk. inversion Hk; subst. eauto.
+    + destruct (py_sort item_lt _) as [its|?] eqn:Hd; [|discriminate]. cbn [bind] in Hk. inversion Hk; subst. eauto.
+  - unfold no_pandas in Hnp. simpl in Hnp. discriminate.
+  - unfold no_pandas in Hnp. simpl in Hnp. discriminate.
+Qed.
+
+(* a supported hashable value never equals a converted key, in either direction *)
+Lemma marker_not_plain : plain_atom (AStr marker) = false.
+Proof. reflexivity. Qed.
+
+Lemma hashable_vs_conv : forall v t p, no_forge v = true -> rel false v (conv t p) = false.
+Proof.
+  intros v t p Hnf. destruct (rel false v (conv t p)) eqn:E; auto. exfalso.
+  destruct v as [a|sk l| | | |]; try discriminate. unfold conv in E. rewrite rel_seq_unfold in E.
+  apply andb_true_iff in E. destruct E as [_ E]. destruct l as [|x l]; [discriminate|]. cbn [rel_list] in E.
+  apply andb_true_iff in E. destruct E as [E _].
+  unfold no_forge in Hnf. rewrite conv_fa_seq in Hnf. simpl in Hnf. apply andb_true_iff in Hnf. destruct Hnf as [Hx _].
+  destruct x as [a| | | | |]; try discriminate. rewrite rel_atom_l in E. cbn [forall_atoms] in Hx.
+  destruct a; unfold atom_eq in E; cbn [numval] in E; try discriminate.
+  apply str_eqb_eq in E. subst. rewrite marker_not_plain in Hx. discriminate.
+Qed.
+
+Lemma conv_vs_hashable : forall w t p, no_forge w = true -> rel false (conv t p) w = false.
+Proof.
+  intros w t p Hnf. destruct (rel false (conv t p) w) eqn:E; auto. exfalso.
+  destruct w as [a|sk l| | | |]; try discriminate. unfold conv in E. rewrite rel_seq_unfold in E.
+  apply andb_true_iff in E. destruct E as [_ E]. destruct l as [|x l]; [discriminate|]. cbn [rel_list] in E.
+  apply andb_true_iff in E. destruct E as [E _].
+  unfold no_forge in Hnf. rewrite conv_fa_seq in Hnf. simpl in Hnf. apply andb_true_iff in Hnf. destruct Hnf as [Hx _].
+  rewrite rel_atom_l in E. destruct x as [a| | | | |]; try discriminate. cbn [forall_atoms] in Hx.
+  destruct a; unfold atom_eq in E; cbn [numval] in E; try discriminate.
+  apply str_eqb_eq in E. subst. rewrite marker_not_plain in Hx. discriminate.
+Qed.
+
+Definition sg (v : pyval) : bool := wf v && no_forge v && no_pandas v.
+Definition kinj (fp : bool) (x y : pyval) : Prop :=
+  forall k k', to_hashable fp x = Ok k -> to_hashable fp y = Ok k' -> rel false k k' = true -> rel true x y = true.
+
+Lemma sg_parts : forall v, sg v = true -> wf v = true /\ no_forge v = true /\ no_pandas v = true.
+Proof. intros v H. unfold sg in H. bsplit. auto. Qed.
+Lemma sg_intro : forall v, wf v = true -> no_forge v = true -> no_pandas v = true -> sg v = true.
+Proof. intros v H1 H2 H3. unfold sg. rewrite H1, H2, H3. reflexivity. Qed.
+
+Lemma sg_seq_children : forall sk l, sg (PSeq sk l) = true -> (forall d sh, sk <> KNd true d sh) ->
+  Forall (fun x => sg x = true) l.
+Proof.
+  intros sk l H Hsk. destruct (sg_parts _ H) as (Hwf & Hnf & Hnp).
+  unfold no_forge in Hnf. rewrite conv_fa_seq in Hnf. unfold no_pandas in Hnp. rewrite fn_seq in Hnp.
+  apply andb_true_iff in Hnp. destruct Hnp as [_ Hnp].
+  assert (Hw : forallb wf l = true).
+  { simpl in Hwf. apply andb_true_iff in Hwf. destruct Hwf as [Hwf _].
+    destruct sk; auto. destruct masked; auto. exfalso. eapply Hsk; eauto. }
+  apply Forall_forall. intros x Hx. rewrite forallb_forall in Hnf, Hnp, Hw. apply sg_intro; auto.
+Qed.
+
+Lemma sg_map_parts : forall mk kvs, sg (PMap mk kvs) = true ->
+  forall kv, In kv kvs -> sg (snd kv) = true /\ wf (fst kv) = true /\ py_hashable (fst kv) = true.
+Proof.
+  intros mk kvs H kv Hkv. destruct (sg_parts _ H) as (Hwf & Hnf & Hnp).
+  unfold no_forge in Hnf. simpl in Hnf. unfold no_pandas in Hnp. rewrite fn_map in Hnp.
+  apply andb_true_iff in Hnp. destruct Hnp as [_ Hnp].
+  simpl in Hwf. apply andb_true_iff in Hwf. destruct Hwf as [Hwf _]. apply andb_true_iff in Hwf. destruct Hwf as [Hwf _].
+  apply andb_true_iff in Hwf. destruct Hwf as [Hw Hh].
+  rewrite forallb_forall in Hnf, Hnp, Hw, Hh.
+  specialize (Hnf kv Hkv). specialize (Hnp kv Hkv). specialize (Hw kv Hkv). specialize (Hh kv Hkv). bsplit.
+  split; [apply sg_intro; auto|]. auto.
+Qed.
+
+Lemma Forall2_in_l {A B} (R : A -> B -> Prop) : forall l l', Forall2 R l l' ->
+  forall a, In a l -> exists b, In b l' /\ R a b.
+Proof.
+  induction 1 as [|x y l l' Hxy H IH]; intros a Ha; [destruct Ha|].
+  destruct Ha as [Ha|Ha]; [subst; exists y; simpl; auto|]. destruct (IH a Ha) as (b & Hb & Hab). exists b. simpl. auto.
+Qed.
+Lemma Forall2_in_r {A B} (R : A -> B -> Prop) : forall l l', Forall2 R l l' ->
+  forall b, In b l' -> exists a, In a l /\ R a b.
+Proof.
+  induction 1 as [|x y l l' Hxy H IH]; intros b Hb; [destruct Hb|].
+  destruct Hb as [Hb|Hb]; [subst; exists x; simpl; auto|]. destruct (IH b Hb) as (a & Ha & Hab). exists a. simpl. auto.
+Qed.
+
+Lemma seqkind_eqb_refl : forall k, seqkind_eqb k k = true.
+Proof.
+  destruct k; simpl; auto.
+  - destruct maxlen; simpl; auto. apply Z.eqb_refl.
+  - apply str_eqb_refl.
+  - rewrite eqb_reflx, str_eqb_refl. simpl. induction shape; simpl; auto. rewrite Z.eqb_refl. auto.
+Qed.
+
+Lemma payload_tuple : forall fp v p, (match v with PA _ => False | _ => True end) -> no_pandas v = true ->
+  payload_of fp v p -> exists out, p = PTuple out.
+Proof.
+  intros fp v p Hv Hnp Hp. destruct v as [a|sk l|sk l|mk kvs| |]; try contradiction; simpl in Hp.
+  - destruct sk.
+    + apply iterable_unsorted in Hp. destruct Hp as (out & -> & _). eauto.
+    + apply iterable_unsorted in Hp. destruct Hp as (out & -> & _). eauto.
+    + destruct Hp as (d & _ & ->). eauto.
+    + eauto.
+    + eauto.
+    + destruct Hp as (d & _ & ->). eauto.
+  - apply iterable_sorted in Hp. destruct Hp as (es & out & _ & -> & _). eauto.
+  - destruct mk.
+    + apply mapping_out in Hp. destruct Hp as (its & out & _ & -> & _). eauto.
+    + apply mapping_out in Hp. destruct Hp as (its & out & _ & -> & _). eauto.
+    + destruct Hp as (d & _ & ->). eauto.
+    + destruct Hp as (its & _ & ->). eauto.
+  - unfold no_pandas in Hnp. simpl in Hnp. discriminate.
+  - unfold no_pandas in Hnp. simpl in Hnp. discriminate.
+Qed.
+
+Lemma tname_seq_set : forall sk sk', str_eqb (tp_seq sk) (tp_set sk') = false.
+Proof. destruct sk as [| | | | |[]], sk'; reflexivity. Qed.
+Lemma tname_seq_map : forall sk mk, str_eqb (tp_seq sk) (tp_map mk) = false.
+Proof. destruct sk as [| | | | |[]], mk; reflexivity. Qed.
+Lemma tname_set_map : forall sk mk, str_eqb (tp_set sk) (tp_map mk) = false.
+Proof. destruct sk, mk; reflexivity. Qed.
+
+Lemma inj_hashable_l : forall fp v w, py_hashable v = true -> sg v = true -> sg w = true -> kinj fp v w.
+Proof.
+  intros fp v w Hh Hs Hs' k k' Hk Hk' Hrel.
+  destruct (sg_parts _ Hs) as (Hwf & Hnf & Hnp). destruct (sg_parts _ Hs') as (Hwf' & Hnf' & Hnp').
+  rewrite th_hashable in Hk by exact Hh. inversion Hk; subst k.
+  destruct (py_hashable w) eqn:Hh'.
+  - rewrite th_hashable in Hk' by exact Hh'. inversion Hk'; subst k'.
+    rewrite <- (hashable_rel_same v Hwf Hh w Hwf' Hh'). exact Hrel.
+  - destruct (th_unhashable fp w k' Hnp' Hh' Hk') as (p' & -> & _).
+    rewrite hashable_vs_conv in Hrel by exact Hnf. discriminate.
+Qed.
+
+Lemma inj_unhashable_form : forall fp v w k k',
+  py_hashable v = false -> sg v = true -> sg w = true ->
+  to_hashable fp v = Ok k -> to_hashable fp w = Ok k' -> rel false k k' = true ->
+  py_hashable w = false /\ exists p p', payload_of fp v p /\ payload_of fp w p'
+                                        /\ str_eqb (tname v) (tname w) = true /\ rel false p p' = true.
+Proof.
+  intros fp v w k k' Hh Hs Hs' Hk Hk' Hrel.
+  destruct (sg_parts _ Hs) as (Hwf & Hnf & Hnp). destruct (sg_parts _ Hs') as (Hwf' & Hnf' & Hnp').
+  destruct (th_unhashable fp v k Hnp Hh Hk) as (p & -> & Hp).
+  destruct (py_hashable w) eqn:Hh'.
+  - rewrite th_hashable in Hk' by exact Hh'. inversion Hk'; subst k'.
+    rewrite conv_vs_hashable in Hrel by exact Hnf'. discriminate.
+  - destruct (th_unhashable fp w k' Hnp' Hh' Hk') as (p' & -> & Hp').
+    rewrite conv_rel in Hrel. apply andb_true_iff in Hrel. destruct Hrel. split; auto. exists p, p'. auto.
+Qed.
+
+Lemma inj_list : forall fp l l' out out',
+  Forall2 (fun x y => to_hashable fp x = Ok y) l out ->
+  Forall2 (fun x y => to_hashable fp x = Ok y) l' out' ->
+  rel_list false out out' = true ->
+  Forall (fun x => sg x = true -> forall w, sg w = true -> kinj fp x w) l ->
+  Forall (fun x => sg x = true) l -> Forall (fun x => sg x = true) l' ->
+  rel_list true l l' = true.
+Proof.
+  intros fp l l' out out' HF. revert l' out'.
+  induction HF as [|x kx l out Hx HF IH]; intros l' out' HF' Hrel HIH Hs Hs'.
+  - destruct out'; [|discriminate]. inversion HF'; subst. reflexivity.
+  - destruct out' as [|ky out']; [discriminate|]. inversion HF' as [|y ? l2 ? Hy HF2]; subst.
+    cbn [rel_list] in Hrel. apply andb_true_iff in Hrel. destruct Hrel as [Hr1 Hr2].
+    inversion HIH as [|? ? HIx HIt]; subst. inversion Hs; subst. inversion Hs'; subst.
+    cbn [rel_list]. rewrite (HIx ltac:(assumption) y ltac:(assumption) kx ky Hx Hy Hr1). cbn [andb].
+    eapply IH; eauto.
+Qed.
+
+Lemma rel_list_atomic_rev : forall l l', forallb atomic l = true -> rel_list false l l' = true -> rel_list true l l' = true.
+Proof.
+  induction l as [|x t IH]; intros l' Ha H; destruct l' as [|y t']; simpl in *; auto. bsplit.
+  rewrite <- atomic_rel by auto. match goal with H : rel false x y = true |- _ => rewrite H end. simpl. apply IH; auto.
+Qed.
+
+Lemma Forall2_len {A B} (R : A -> B -> Prop) : forall l l', Forall2 R l l' -> length l = length l'.
+Proof. induction 1; simpl; auto. Qed.
+
+Definition itemT (it it' : item) : Prop :=
+  rel true (fst (fst it)) (fst (fst it')) = true /\ rel true (snd (fst it)) (snd (fst it')) = true.
+
+Lemma in_items_kv : forall fp kvs (its : list item) it,
+  Permutation (mk_items fp kvs) its -> In it its -> In (fst it) kvs /\ snd it = to_hashable fp (snd (fst it)).
+Proof.
+  intros fp kvs its it Hp Hit. apply (Permutation_in _ (Permutation_sym Hp)) in Hit.
+  apply in_mk_items in Hit. destruct Hit as (kv & Hkv & ->). simpl. destruct kv; auto.
+Qed.
+Lemma kv_in_items : forall fp kvs (its : list item) kv,
+  Permutation (mk_items fp kvs) its -> In kv kvs -> In (fst kv, snd kv, to_hashable fp (snd kv)) its.
+Proof.
+  intros fp kvs its kv Hp Hkv. apply (Permutation_in _ Hp). unfold mk_items. apply in_map_iff. exists kv. auto.
+Qed.
+
+Lemma rel_dict_from_forall2 : forall fp kvs kvs' (its its' : list item),
+  Permutation (mk_items fp kvs) its -> Permutation (mk_items fp kvs') its' ->
+  Forall2 itemT its its' -> rel_dict true kvs kvs' = true.
+Proof.
+  intros fp kvs kvs' its its' Hp Hp' HR. unfold rel_dict. apply andb_true_iff. split.
+  - apply Nat.eqb_eq. apply Permutation_length in Hp, Hp'. apply Forall2_len in HR.
+    unfold mk_items in Hp, Hp'. rewrite map_length in Hp, Hp'. lia.
+  - apply forallb_forall. intros kv Hkv. apply existsb_exists.
+    destruct (Forall2_in_l _ _ _ HR _ (kv_in_items fp kvs its kv Hp Hkv)) as (it' & Hit' & [Hk Hv]).
+    destruct (in_items_kv fp kvs' its' it' Hp' Hit') as [Hin _]. exists (fst it'). split; auto.
+    simpl in Hk, Hv. rewrite Hk, Hv. reflexivity.
+Qed.
+
+Lemma rel_counter_from_forall2 : forall fp kvs kvs' (its its' : list item),
+  Permutation (mk_items fp kvs) its -> Permutation (mk_items fp kvs') its' ->
+  Forall2 itemT its its' -> rel_counter true kvs kvs' = true.
+Proof.
+  intros fp kvs kvs' its its' Hp Hp' HR. unfold rel_counter. apply andb_true_iff. split.
+  - apply forallb_forall. intros kv Hkv. apply orb_true_iff. left. apply existsb_exists.
+    destruct (Forall2_in_l _ _ _ HR _ (kv_in_items fp kvs its kv Hp Hkv)) as (it' & Hit' & [Hk Hv]).
+    destruct (in_items_kv fp kvs' its' it' Hp' Hit') as [Hin _]. exists (fst it'). split; auto.
+    simpl in Hk, Hv. rewrite Hk, Hv. reflexivity.
+  - apply forallb_forall. intros kv' Hkv'. apply orb_true_iff. left. apply existsb_exists.
+    destruct (Forall2_in_r _ _ _ HR _ (kv_in_items fp kvs' its' kv' Hp' Hkv')) as (it & Hit & [Hk Hv]).
+    destruct (in_items_kv fp kvs its it Hp Hit) as [Hin _]. exists (fst it). split; auto.
+    simpl in Hk, Hv. rewrite Hk, Hv. reflexivity.
+Qed.
+
+Lemma rel_items_from_forall2 : forall fp kvs kvs',
+  Forall2 itemT (mk_items fp kvs) (mk_items fp kvs') -> rel_items true kvs kvs' = true.
+Proof.
+  intros fp kvs. induction kvs as [|kv kvs IH]; intros kvs' H; destruct kvs' as [|kv' kvs']; simpl in H;
+    try (inversion H; fail); auto.
+  inversion H as [|? ? ? ? [Hk Hv] Ht]; subst. simpl in Hk, Hv. simpl. rewrite Hk, Hv. simpl. apply IH. exact Ht.
+Qed.
+
+(* converted items with equal keys come from items with equal keys and (by induction) equal values *)
+Lemma inj_items : forall fp (its its' : list item) out out',
+  Forall2 item_out its out -> Forall2 item_out its' out' -> rel_list false out out' = true ->
+  (forall it, In it its -> wf (fst (fst it)) = true /\ py_hashable (fst (fst it)) = true
+                           /\ snd it = to_hashable fp (snd (fst it))
+                           /\ (forall w, sg w = true -> kinj fp (snd (fst it)) w)) ->
+  (forall it, In it its' -> wf (fst (fst it)) = true /\ py_hashable (fst (fst it)) = true
+                            /\ snd it = to_hashable fp (snd (fst it)) /\ sg (snd (fst it)) = true) ->
+  Forall2 itemT its its'.
+Proof.
+  intros fp its its' out out' HF. revert its' out'.
+  induction HF as [|it y its out (hv & Hhv & ->) HF IH]; intros its' out' HF' Hrel H H'.
+  - destruct out'; [|discriminate]. inversion HF'; subst. constructor.
+  - destruct out' as [|y' out']; [discriminate|]. inversion HF' as [|it' ? its2 ? (hv' & Hhv' & ->) HF2]; subst.
+    cbn [rel_list] in Hrel. apply andb_true_iff in Hrel. destruct Hrel as [Hr Hrel].
+    unfold pair_t in Hr. rewrite rel_tuple in Hr. cbn [rel_list] in Hr.
+    apply andb_true_iff in Hr. destruct Hr as [Hrk Hrv]. rewrite andb_true_r in Hrv.
+    destruct (H it) as (Hw & Hh & Hs & HI); [simpl; auto|].
+    destruct (H' it') as (Hw' & Hh' & Hs' & Hsg'); [simpl; auto|].
+    constructor.
+    + split.
+      * rewrite <- (hashable_rel_same _ Hw Hh _ Hw' Hh'). exact Hrk.
+      * apply (HI _ Hsg' hv hv'); auto; congruence.
+    + eapply IH; eauto; intros; [apply H|apply H']; simpl; auto.
+Qed.
+
+Lemma counter_items_inj : forall (its its' : list item),
+  rel_list false (map (fun it : item => pair_t (fst (fst it)) (snd (fst it))) its)
+                 (map (fun it : item => pair_t (fst (fst it)) (snd (fst it))) its') = true ->
+  (forall it, In it its -> wf (fst (fst it)) = true /\ py_hashable (fst (fst it)) = true
+                           /\ atomic (snd (fst it)) = true) ->
+  (forall it, In it its' -> wf (fst (fst it)) = true /\ py_hashable (fst (fst it)) = true) ->
+  Forall2 itemT its its'.
+Proof.
+  induction its as [|it its IH]; intros its' Hrel H H'; destruct its' as [|it' its']; cbn [map rel_list] in Hrel;
+    try discriminate; [constructor|].
+  apply andb_true_iff in Hrel. destruct Hrel as [Hr Hrel].
+  unfold pair_t in Hr. rewrite rel_tuple in Hr. cbn [rel_list] in Hr.
+  apply andb_true_iff in Hr. destruct Hr as [Hrk Hr]. apply andb_true_iff in Hr. destruct Hr as [Hrv _].
+  destruct (H it) as (Hw & Hh & Ha); [simpl; auto|]. destruct (H' it') as (Hw' & Hh'); [simpl; auto|].
+  constructor.
+  - split.
+    + rewrite <- (hashable_rel_same _ Hw Hh _ Hw' Hh'). exact Hrk.
+    + rewrite <- (atomic_rel _ _ Ha). exact Hrv.
+  - apply IH; auto; intros; [apply H|apply H']; simpl; auto.
+Qed.
+
+Lemma ints_rel_inj : forall sh sh',
+  rel_list false (map (fun z => PInt z) sh) (map (fun z => PInt z) sh') = true -> list_eqb Z.eqb sh sh' = true.
+Proof.
+  induction sh as [|z sh IH]; intros sh' H; destruct sh' as [|z' sh']; simpl in H; try discriminate; auto.
+  apply andb_true_iff in H. destruct H as [Hz H]. simpl.
+  unfold atom_eq in Hz. cbn [numval] in Hz. apply Z.eqb_eq in Hz. assert (z = z') by lia. subst. rewrite Z.eqb_refl.
+  simpl. auto.
+Qed.
+Lemma maxlen_inj : forall m m', rel false (maxlen_val m) (maxlen_val m') = true -> zopt_eqb m m' = true.
+Proof.
+  intros m m' H. destruct m, m'; simpl in H; unfold atom_eq in H; cbn [numval] in H; try discriminate; auto.
+  simpl. apply Z.eqb_eq in H. apply Z.eqb_eq. lia.
+Qed.
+Lemma factory_inj : forall f f', rel false (factory_val f) (factory_val f') = true -> opt_eqb str_eqb f f' = true.
+Proof. intros f f' H. destruct f, f'; simpl in H; unfold atom_eq in H; cbn [numval] in H; try discriminate; auto. Qed.
+
+Lemma set_elems_facts : forall fp l d,
+  forallb py_hashable l = true ->
+  hashable_iterable true (map (fun x => (x, to_hashable fp x)) l) = Ok d ->
+  exists es : list elem, Permutation (map (fun x => (x, to_hashable fp x)) l) es /\ d = PTuple (map fst es).
+Proof.
+  intros fp l d Hh Hd. apply iterable_sorted in Hd. destruct Hd as (es & out & Hs & -> & HF).
+  apply py_sort_perm in Hs. exists es. split; auto. f_equal.
+  rewrite forallb_forall in Hh. eapply elems_out; eauto.
+Qed.
+
+Theorem inj_g : forall fp v, sg v = true -> forall w, sg w = true -> kinj fp v w.
+Proof.
+  intros fp v. induction v as [a|sk l IH|sk l IH|mk kvs IH|n d i x|c i] using pyval_ind2;
+    intros Hs w Hs' k k' Hk Hk' Hrel.
+  - (* scalars *)
+    destruct (py_hashable (PA a)) eqn:Hh; [eapply inj_hashable_l; eauto|].
+    destruct (inj_unhashable_form fp _ w k k' Hh Hs Hs' Hk Hk' Hrel) as (Hh' & p & p' & Hp & Hp' & Hn & Hpp).
+    destruct (sg_parts _ Hs') as (Hwf' & Hnf' & Hnp').
+    destruct a; simpl in Hp; try contradiction. subst p.
+    destruct w as [b| | | | |].
+    + destruct b; simpl in Hp'; try contradiction. subst p'. rewrite rel_atom_l in *.
+      unfold atom_eq in *. cbn [numval] in *. exact Hpp.
+    + match type of Hp' with payload_of _ ?w0 _ => destruct (payload_tuple fp w0 p' I Hnp' Hp') as [out ->] end. discriminate.
+    + match type of Hp' with payload_of _ ?w0 _ => destruct (payload_tuple fp w0 p' I Hnp' Hp') as [out ->] end. discriminate.
+    + match type of Hp' with payload_of _ ?w0 _ => destruct (payload_tuple fp w0 p' I Hnp' Hp') as [out ->] end. discriminate.
+    + unfold no_pandas in Hnp'. simpl in Hnp'. discriminate.
+    + unfold no_pandas in Hnp'. simpl in Hnp'. discriminate.
+  - (* ordered containers *)
+    destruct (py_hashable (PSeq sk l)) eqn:Hh; [eapply inj_hashable_l; eauto|].
+    destruct (inj_unhashable_form fp _ w k k' Hh Hs Hs' Hk Hk' Hrel) as (Hh' & p & p' & Hp & Hp' & Hn & Hpp).
+    destruct (sg_parts _ Hs) as (Hwf & Hnf & Hnp). destruct (sg_parts _ Hs') as (Hwf' & Hnf' & Hnp').
+    destruct w as [b|sk' l'|sk' l'|mk' kvs'| |].
+    + match type of Hp with payload_of _ ?w0 _ => destruct (payload_tuple fp w0 p I Hnp Hp) as [out ->] end.
+      destruct b; simpl in Hp'; try contradiction. subst p'. discriminate.
+    + (* sequence vs sequence *)
+      cbn [tname] in Hn.
+      assert (Hlist : (forall d sh, sk <> KNd true d sh) -> (forall d sh, sk' <> KNd true d sh) -> forall d d',
+                hashable_iterable false (map (fun x => (x, to_hashable fp x)) l) = Ok d ->
+                hashable_iterable false (map (fun x => (x, to_hashable fp x)) l') = Ok d' ->
+                rel false d d' = true -> rel_list true l l' = true).
+      { intros Hsk Hsk' d d' Hd Hd' Hdd.
+        apply iterable_unsorted in Hd. destruct Hd as (out & -> & HF).
+        apply iterable_unsorted in Hd'. destruct Hd' as (out' & -> & HF').
+        rewrite rel_tuple in Hdd.
+        eapply inj_list; eauto using sg_seq_children. }
+      cbn [payload_of] in Hp, Hp'. simpl in Hwf, Hwf'.
+      apply andb_true_iff in Hwf. destruct Hwf as [_ Hwf]. apply andb_true_iff in Hwf'. destruct Hwf' as [_ Hwf'].
+      destruct sk as [| |ml| |cd|m dt sh], sk' as [| |ml'| |cd'|m' dt' sh'];
+        try (simpl in Hn; discriminate); try (destruct m; simpl in Hn; discriminate);
+        try (destruct m'; simpl in Hn; discriminate).
+      * rewrite rel_seq_unfold. simpl. eapply Hlist; eauto; discriminate.
+      * rewrite rel_seq_unfold. simpl. eapply Hlist; eauto; discriminate.
+      * destruct Hp as (d & Hd & ->). destruct Hp' as (d' & Hd' & ->).
+        rewrite rel_tuple in Hpp. cbn [rel_list] in Hpp.
+        apply andb_true_iff in Hpp. destruct Hpp as [Hm Hpp]. rewrite andb_true_r in Hpp.
+        rewrite rel_seq_unfold. cbn [seqkind_eqb]. rewrite (maxlen_inj _ _ Hm). cbn [andb].
+        eapply Hlist; eauto; discriminate.
+      * subst p p'. rewrite rel_tuple in Hpp. rewrite rel_seq_unfold. simpl.
+        apply rel_list_atomic_rev; auto. apply forallb_forall. intros x Hx. rewrite forallb_forall in Hwf.
+        apply scalar_atomic. rewrite (Hwf x Hx). rewrite ?orb_true_r. reflexivity.
+      * subst p p'. rewrite rel_tuple in Hpp. cbn [rel_list] in Hpp.
+        apply andb_true_iff in Hpp. destruct Hpp as [Hc Hpp]. rewrite andb_true_r in Hpp.
+        rewrite rel_atom_l in Hc. unfold atom_eq in Hc. cbn [numval] in Hc.
+        rewrite rel_tuple in Hpp. rewrite rel_seq_unfold. cbn [seqkind_eqb]. rewrite Hc. cbn [andb].
+        apply rel_list_atomic_rev; auto. apply forallb_forall. intros x Hx. rewrite forallb_forall in Hwf.
+        specialize (Hwf x Hx). apply scalar_atomic. unfold array_code_ok in Hwf.
+        destruct (mem_str cd _); [rewrite Hwf; reflexivity|].
+        destruct (mem_str cd _); [rewrite Hwf; rewrite ?orb_true_r; reflexivity|discriminate].
+      * destruct Hp as (items & Hi & ->). destruct Hp' as (items' & Hi' & ->).
+        rewrite rel_tuple in Hpp. cbn [rel_list] in Hpp.
+        apply andb_true_iff in Hpp. destruct Hpp as [Hsh Hpp]. apply andb_true_iff in Hpp. destruct Hpp as [Hdt Hpp].
+        rewrite andb_true_r in Hpp. rewrite rel_tuple in Hsh. apply ints_rel_inj in Hsh.
+        rewrite rel_atom_l in Hdt. unfold atom_eq in Hdt. cbn [numval] in Hdt.
+        assert (Em : Bool.eqb m m' = true) by (destruct m, m'; simpl in Hn; try discriminate; reflexivity).
+        rewrite rel_seq_unfold. cbn [seqkind_eqb]. rewrite Em, Hdt, Hsh. cbn [andb].
+        apply str_eqb_eq in Hdt. subst dt'.
+        apply andb_true_iff in Hwf. destruct Hwf as [Hwf Hel]. apply andb_true_iff in Hwf. destruct Hwf as [Hwf _].
+        apply andb_true_iff in Hwf. destruct Hwf as [Hmo _].
+        apply andb_true_iff in Hwf'. destruct Hwf' as [Hwf' Hel']. apply andb_true_iff in Hwf'. destruct Hwf' as [Hwf' _].
+        apply andb_true_iff in Hwf'. destruct Hwf' as [Hmo' _].
+        destruct (str_eqb dt dt_obj) eqn:Hobj.
+        -- rewrite andb_true_r in Hmo, Hmo'. apply negb_true_iff in Hmo, Hmo'. subst m m'.
+           eapply Hlist; eauto; discriminate.
+        -- inversion Hi; inversion Hi'; subst items items'. rewrite rel_tuple in Hpp.
+           apply rel_list_atomic_rev; auto. eapply nd_elems_atomic; eauto.
+    + cbn [tname] in Hn. rewrite tname_seq_set in Hn. discriminate.
+    + cbn [tname] in Hn. rewrite tname_seq_map in Hn. discriminate.
+    + unfold no_pandas in Hnp'. simpl in Hnp'. discriminate.
+    + unfold no_pandas in Hnp'. simpl in Hnp'. discriminate.
+  - (* sets *)
+    destruct (py_hashable (PSetv sk l)) eqn:Hh; [eapply inj_hashable_l; eauto|].
+    destruct (inj_unhashable_form fp _ w k k' Hh Hs Hs' Hk Hk' Hrel) as (Hh' & p & p' & Hp & Hp' & Hn & Hpp).
+    destruct (sg_parts _ Hs) as (Hwf & Hnf & Hnp). destruct (sg_parts _ Hs') as (Hwf' & Hnf' & Hnp').
+    destruct w as [b|sk' l'|sk' l'|mk' kvs'| |].
+    + match type of Hp with payload_of _ ?w0 _ => destruct (payload_tuple fp w0 p I Hnp Hp) as [out ->] end.
+      destruct b; simpl in Hp'; try contradiction. subst p'. discriminate.
+    + cbn [tname] in Hn. rewrite str_eqb_sym, tname_seq_set in Hn. discriminate.
+    + destruct sk; [|simpl in Hh; discriminate]. destruct sk'; [|simpl in Hh'; discriminate].
+      cbn [payload_of] in Hp, Hp'. simpl in Hwf, Hwf'.
+      apply andb_true_iff in Hwf. destruct Hwf as [Hwf _]. apply andb_true_iff in Hwf. destruct Hwf as [Hwl Hhl].
+      apply andb_true_iff in Hwf'. destruct Hwf' as [Hwf' _]. apply andb_true_iff in Hwf'. destruct Hwf' as [Hwl' Hhl'].
+      destruct (set_elems_facts fp l p Hhl Hp) as (es & Hpe & ->).
+      destruct (set_elems_facts fp l' p' Hhl' Hp') as (es' & Hpe' & ->).
+      rewrite rel_tuple in Hpp. apply rel_list_forall2 in Hpp.
+      rewrite rel_set_unfold. simpl. apply andb_true_iff. split.
+      * apply Nat.eqb_eq. apply Forall2_len in Hpp. rewrite !map_length in Hpp.
+        apply Permutation_length in Hpe, Hpe'. rewrite map_length in Hpe, Hpe'. lia.
+      * apply forallb_forall. intros a Ha. apply existsb_exists.
+        assert (Hina : In a (map fst es)).
+        { apply in_map_iff. exists (a, to_hashable fp a). split; auto. apply (Permutation_in _ Hpe).
+          apply in_map_iff. eauto. }
+        destruct (Forall2_in_l _ _ _ Hpp a Hina) as (b & Hb & Hab).
+        apply in_map_iff in Hb. destruct Hb as (e' & <- & He'). apply (Permutation_in _ (Permutation_sym Hpe')) in He'.
+        apply in_map_iff in He'. destruct He' as (y & <- & Hy). simpl in Hab. exists y. split; auto.
+        rewrite forallb_forall in Hwl, Hhl, Hwl', Hhl'.
+        rewrite <- (hashable_rel_same a (Hwl a Ha) (Hhl a Ha) y (Hwl' y Hy) (Hhl' y Hy)). exact Hab.
+    + cbn [tname] in Hn. rewrite tname_set_map in Hn. discriminate.
+    + unfold no_pandas in Hnp'. simpl in Hnp'. discriminate.
+    + unfold no_pandas in Hnp'. simpl in Hnp'. discriminate.
+  - (* mappings *)
+    assert (Hh : py_hashable (PMap mk kvs) = false) by reflexivity.
+    destruct (inj_unhashable_form fp _ w k k' Hh Hs Hs' Hk Hk' Hrel) as (Hh' & p & p' & Hp & Hp' & Hn & Hpp).
+    destruct (sg_parts _ Hs) as (Hwf & Hnf & Hnp). destruct (sg_parts _ Hs') as (Hwf' & Hnf' & Hnp').
+    destruct w as [b|sk' l'|sk' l'|mk' kvs'| |].
+    + match type of Hp with payload_of _ ?w0 _ => destruct (payload_tuple fp w0 p I Hnp Hp) as [out ->] end.
+      destruct b; simpl in Hp'; try contradiction. subst p'. discriminate.
+    + cbn [tname] in Hn. rewrite str_eqb_sym, tname_seq_map in Hn. discriminate.
+    + cbn [tname] in Hn. rewrite str_eqb_sym, tname_set_map in Hn. discriminate.
+    + assert (Hparts := sg_map_parts _ _ Hs). assert (Hparts' := sg_map_parts _ _ Hs').
+      rewrite Forall_forall in IH.
+      assert (Hits : forall its : list item, Permutation (mk_items fp kvs) its -> forall it, In it its ->
+                wf (fst (fst it)) = true /\ py_hashable (fst (fst it)) = true
+                /\ snd it = to_hashable fp (snd (fst it))
+                /\ (forall w, sg w = true -> kinj fp (snd (fst it)) w)).
+      { intros its Hpi it Hit. destruct (in_items_kv fp kvs its it Hpi Hit) as [Hin Hsnd].
+        destruct (Hparts _ Hin) as (Hsv & Hwk & Hhk). destruct (IH _ Hin) as [_ IHv]. auto. }
+      assert (Hits' : forall its : list item, Permutation (mk_items fp kvs') its -> forall it, In it its ->
+                wf (fst (fst it)) = true /\ py_hashable (fst (fst it)) = true
+                /\ snd it = to_hashable fp (snd (fst it)) /\ sg (snd (fst it)) = true).
+      { intros its Hpi it Hit. destruct (in_items_kv fp kvs' its it Hpi Hit) as [Hin Hsnd].
+        destruct (Hparts' _ Hin) as (Hsv & Hwk & Hhk). auto. }
+      assert (Hmapping : forall (srt : bool) d d',
+                hashable_mapping srt (mk_items fp kvs) = Ok d -> hashable_mapping srt (mk_items fp kvs') = Ok d' ->
+                rel false d d' = true ->
+                exists its its' : list item, Permutation (mk_items fp kvs) its /\ Permutation (mk_items fp kvs') its'
+                                 /\ (srt = false -> its = mk_items fp kvs /\ its' = mk_items fp kvs')
+                                 /\ Forall2 itemT its its').
+      { intros srt d d' Hd Hd' Hdd.
+        apply mapping_out in Hd. destruct Hd as (its & out & Hso & -> & HF).
+        apply mapping_out in Hd'. destruct Hd' as (its' & out' & Hso' & -> & HF').
+        assert (Hpi := sorted_items_in _ _ _ Hso). assert (Hpi' := sorted_items_in _ _ _ Hso').
+        rewrite rel_tuple in Hdd. exists its, its'. split; auto. split; auto. split.
+        - intros ->. inversion Hso; inversion Hso'; auto.
+        - eapply inj_items; eauto. }
+      cbn [tname] in Hn. cbn [payload_of] in Hp, Hp'.
+      destruct mk as [| |f|], mk' as [| |f'|]; try (simpl in Hn; discriminate).
+      * destruct (Hmapping true p p' Hp Hp' Hpp) as (its & its' & Hpi & Hpi' & _ & HR).
+        rewrite rel_map_unfold. simpl. eapply rel_dict_from_forall2; eauto.
+      * destruct (Hmapping false p p' Hp Hp' Hpp) as (its & its' & Hpi & Hpi' & He & HR).
+        destruct (He eq_refl) as [-> ->].
+        rewrite rel_map_unfold. simpl. eapply rel_items_from_forall2; eauto.
+      * destruct Hp as (d & Hd & ->). destruct Hp' as (d' & Hd' & ->).
+        rewrite rel_tuple in Hpp. cbn [rel_list] in Hpp.
+        apply andb_true_iff in Hpp. destruct Hpp as [Hf Hpp]. rewrite andb_true_r in Hpp.
+        destruct (Hmapping true d d' Hd Hd' Hpp) as (its & its' & Hpi & Hpi' & _ & HR).
+        rewrite rel_map_unfold. cbn [mapkind_eqb negb orb]. rewrite (factory_inj _ _ Hf). cbn [andb].
+        eapply rel_dict_from_forall2; eauto.
+      * destruct Hp as (its & Hso & ->). destruct Hp' as (its' & Hso' & ->).
+        rewrite rel_tuple in Hpp.
+        assert (Hpi := py_sort_perm _ _ _ Hso). assert (Hpi' := py_sort_perm _ _ _ Hso').
+        simpl in Hwf. apply andb_true_iff in Hwf. destruct Hwf as [_ Hci]. rewrite forallb_forall in Hci.
+        rewrite rel_map_unfold. simpl. eapply rel_counter_from_forall2; eauto.
+        apply counter_items_inj; auto.
+        -- intros it Hit. destruct (Hits its Hpi it Hit) as (Hw & Hhk & _ & _).
+           destruct (in_items_kv fp kvs its it Hpi Hit) as [Hin _].
+           split; auto. split; auto. apply scalar_atomic. rewrite (Hci _ Hin). reflexivity.
+        -- intros it Hit. destruct (Hits' its' Hpi' it Hit) as (Hw & Hhk & _ & _). auto.
+    + unfold no_pandas in Hnp'. simpl in Hnp'. discriminate.
+    + unfold no_pandas in Hnp'. simpl in Hnp'. discriminate.
+  - destruct (sg_parts _ Hs) as (_ & _ & Hnp). unfold no_pandas in Hnp. simpl in Hnp. discriminate.
+  - destruct (sg_parts _ Hs) as (_ & _ & Hnp). unfold no_pandas in Hnp. simpl in Hnp. discriminate.
+Qed.
+
+Theorem key_eq_implies_eq : forall fp v w k k',
+  supported v = true -> supported w = true -> no_pandas v = true -> no_pandas w = true ->
+  to_hashable fp v = Ok k -> to_hashable fp w = Ok k' -> py_eq k k' = true -> py_same v w = true.
+Proof.
+  intros fp v w k k' Hv Hw Hnp Hnp' Hk Hk' Heq.
+  unfold supported in Hv, Hw. apply andb_true_iff in Hv. destruct Hv. apply andb_true_iff in Hw. destruct Hw.
+  eapply (inj_g fp v); eauto; apply sg_intro; auto.
+Qed.
